@@ -9,8 +9,7 @@ MUTANTS = [
      """    relative_path = os.path.relpath(full_path, root_path)
     if not full_path.startswith(root_path):"""),
     ('c18-validate-after-makedirs', 'C18', 'stone/backend.py',
-     """        full_path = os.path.join(self.target_folder_path, relative_path)
-        self._validate_output_path(full_path)
+     """        self._validate_output_path(full_path)
         if self._record_output_path(full_path):
             self.clear_output_buffer()
             yield
@@ -22,8 +21,7 @@ MUTANTS = [
             self.logger.info('Creating %s', directory)
             os.makedirs(directory)
 """,
-     """        full_path = os.path.join(self.target_folder_path, relative_path)
-        if self.output_manifest is not None:
+     """        if self.output_manifest is not None:
             self._validate_output_path(full_path)
         if self._record_output_path(full_path):
             self.clear_output_buffer()
@@ -37,6 +35,9 @@ MUTANTS = [
             os.makedirs(directory)
         self._validate_output_path(full_path)
 """),
+    ('c18-unnormalized-path', 'C18', 'stone/backend.py',
+     """        full_path = os.path.normpath(os.path.join(self.target_folder_path, relative_path))""",
+     """        full_path = os.path.join(self.target_folder_path, relative_path)"""),
     ('c18-copy-no-validate', 'C18', 'stone/backend.py',
      """        self._validate_output_path(output_path)
         if self._record_output_path(output_path):
@@ -158,4 +159,184 @@ MUTANTS = [
                     data_type)""",
      """                self.obj_name_to_namespace.setdefault(data_type.name, fmt_class_prefix(
                     data_type))"""),
+    # ---- C06 ------------------------------------------------------------------------
+    ('c06-struct-no-dict-check', 'C06', 'stone/backends/python_rsrc/stone_serializers.py',
+     """        elif not isinstance(obj, dict):
+            raise bv.ValidationError('expected object, got %s' %
+                                     bv.generic_type_name(obj))
+        all_fields = data_type.definition._all_fields_""",
+     """        elif not isinstance(obj, (dict, list)):
+            raise bv.ValidationError('expected object, got %s' %
+                                     bv.generic_type_name(obj))
+        all_fields = data_type.definition._all_fields_"""),
+    ('c06-list-no-max-items', 'C06', 'stone/backends/python_rsrc/stone_validators.py',
+     """        elif self.max_items is not None and len(val) > self.max_items:""",
+     """        elif self.max_items is not None and len(val) > self.max_items + 1:"""),
+    ('c06-strict-accepts-unknown-fields', 'C06', 'stone/backends/python_rsrc/stone_serializers.py',
+     """                if (key not in all_field_names and
+                        not key.startswith('.tag')):""",
+     """                if (key not in all_field_names and
+                        not key.startswith('.tag') and not key.startswith('zz')):"""),
+    ('c06-closed-union-unknown-tag', 'C06', 'stone/backends/python_rsrc/stone_serializers.py',
+     """            if not self.strict and data_type.definition._catch_all:
+                return data_type.definition._catch_all, None
+            else:
+                raise bv.ValidationError("unknown tag '%s'" % tag)""",
+     """            if not self.strict:
+                return (data_type.definition._catch_all or sorted(data_type.definition._tagmap)[0]), None
+            else:
+                raise bv.ValidationError("unknown tag '%s'" % tag)"""),
+    ('c06-no-bool-check', 'C06', 'stone/backends/python_rsrc/stone_serializers.py',
+     """            if isinstance(data_type, (bv.Integer, bv.Real)) and isinstance(val, bool):""",
+     """            if isinstance(data_type, bv.Real) and isinstance(val, bool):"""),
+    ('c06-toplevel-unvalidated', 'C06', 'stone/backends/python_rsrc/stone_serializers.py',
+     """    elif isinstance(data_type, (bv.List, bv.Map, bv.Nullable)):""",
+     """    elif isinstance(data_type, (bv.Map, bv.Nullable)):"""),
+    ('c06-tree-non-dict', 'C06', 'stone/backends/python_rsrc/stone_serializers.py',
+     """        if not isinstance(obj, dict):
+            raise bv.ValidationError('expected object, got %s' %
+                                     bv.generic_type_name(obj))
+        if '.tag' not in obj:
+            raise bv.ValidationError("missing '.tag' key")
+        if not isinstance(obj['.tag'], str):""",
+     """        if '.tag' not in obj:
+            raise bv.ValidationError("missing '.tag' key")
+        if not isinstance(obj['.tag'], str):"""),
+    ('c06-explicit-null-refused', 'C06', 'stone/backends/python_rsrc/stone_serializers.py',
+     """        if obj is not None:
+            return self.json_compat_obj_decode_helper(data_type.validator, obj)
+        else:
+            return None""",
+     """        if obj is not None or isinstance(data_type.validator, bv.Timestamp):
+            return self.json_compat_obj_decode_helper(data_type.validator, obj)
+        else:
+            return None"""),
+    ('c06-string-pattern-search', 'C06', 'stone/backends/python_rsrc/stone_validators.py',
+     """                self.pattern_re = re.compile(r"\\A(?:" + pattern + r")\\Z")""",
+     """                self.pattern_re = re.compile(r"(?:" + pattern + r")\\Z")"""),
+    # ---- C07 ------------------------------------------------------------------------
+    ('c07-lenient-rejects-unknown-fields', 'C07', 'stone/backends/python_rsrc/stone_serializers.py',
+     """        if self.strict:
+            all_field_names = data_type.definition._all_field_names_""",
+     """        if self.strict or len(obj) > 6:
+            all_field_names = data_type.definition._all_field_names_"""),
+    ('c07-unknown-tag-no-catch-all-in-list', 'C07', 'stone/backends/python_rsrc/stone_serializers.py',
+     """        if not data_type.definition._is_tag_present(tag, self.caller_permissions):
+            if not self.strict and data_type.definition._catch_all:
+                return data_type.definition._catch_all, None""",
+     """        if not data_type.definition._is_tag_present(tag, self.caller_permissions):
+            if not self.strict and data_type.definition._catch_all and len(obj) < 3:
+                return data_type.definition._catch_all, None"""),
+    ('c07-tree-no-fallback', 'C07', 'stone/backends/python_rsrc/stone_serializers.py',
+     """                if data_type.definition._is_catch_all_:
+                    return data_type""",
+     """                if data_type.definition._is_catch_all_ and len(obj) < 4:
+                    return data_type"""),
+    ('c07-lenient-void-rejects-payload', 'C07', 'stone/backends/python_rsrc/stone_serializers.py',
+     """        if isinstance(val_data_type, bv.Void):
+            if self.strict:""",
+     """        if isinstance(val_data_type, bv.Void):
+            if self.strict or isinstance(obj.get(tag), dict):"""),
+    ('c07-strict-accepts-unknown-subtype-fields', 'C07', 'stone/backends/python_rsrc/stone_serializers.py',
+     """            for key in obj:
+                if (key not in all_field_names and
+                        not key.startswith('.tag')):
+                    raise bv.ValidationError("unknown field '%s'" % key)""",
+     """            for key in obj:
+                if (key not in all_field_names and
+                        not key.startswith('.tag') and '.tag' not in obj):
+                    raise bv.ValidationError("unknown field '%s'" % key)"""),
+    ('c07-default-lost-for-union-fields', 'C07', 'stone/backends/python_rsrc/stone_base.py',
+     """        if self.default is not NO_DEFAULT:
+            return self.default""",
+     """        if self.default is not NO_DEFAULT and not self.user_defined:
+            return self.default"""),
+    ('c07-string-tag-no-catch-all', 'C07', 'stone/backends/python_rsrc/stone_serializers.py',
+     """            elif not self.strict and data_type.definition._catch_all:
+                tag = data_type.definition._catch_all
+            else:
+                raise bv.ValidationError("unknown tag '%s'" % tag)
+        elif isinstance(obj, dict):
+            tag, val = self.decode_union_dict(data_type, obj)""",
+     """            else:
+                raise bv.ValidationError("unknown tag '%s'" % tag)
+        elif isinstance(obj, dict):
+            tag, val = self.decode_union_dict(data_type, obj)"""),
+    # ---- C11 ------------------------------------------------------------------------
+    ('c11-stdin-substring-split', 'C11', 'stone/cli.py',
+     """            parts = re.split(r'(?m)^(?=namespace\\b)', stdin_text)""",
+     """            parts = re.split(r'(?=namespace\\b)', stdin_text)"""),
+    ('c11-no-datatype-sort', 'C11', 'stone/ir/api.py',
+     """        self.data_types.sort(key=lambda data_type: data_type.name)""",
+     """        pass"""),
+    ('c11-annotations-interleaved', 'C11', 'stone/frontend/ir_generator.py',
+     """        # annotations of every namespace are complete before any alias or data type
+        # uses them: a spec may apply an annotation of a namespace defined in a later spec
+        for namespace in self.api.namespaces.values():
+            env = self._get_or_create_env(namespace.name)
+
+""", ""),
+    ('c11-nullable-alias-order', 'C11', 'stone/frontend/ir_generator.py',
+     """                if cur_data_type.data_type is None:
+                    self._populate_alias_attributes(
+                        self._get_or_create_env(cur_data_type.namespace.name), cur_data_type)
+""", """                if cur_data_type.data_type is None:
+                    break
+"""),
+    ('c11-comment-line-dents', 'C11', 'stone/frontend/lexer.py',
+     """        if lstripped_line[0] == '#':
+            # If it's a comment line, ignore indentation.
+            return None
+""", """        if lstripped_line[0] == '#' and len(line) - lstripped_line_length < 12:
+            # If it's a comment line, ignore indentation.
+            return None
+"""),
+    # ---- C03 ------------------------------------------------------------------------
+    ('c03-eof-assert', 'C03', 'stone/frontend/parser.py',
+     """        if token is None:
+            # The text ended in the middle of a definition.
+            self.errors.append(
+                ('Unexpected end of file.', self.lexer.lex.lineno, self.path))
+            return
+""", """        assert token is not None, "Unknown error, please report this."
+"""),
+    ('c03-param-error-unconverted', 'C03', 'stone/frontend/ir_generator.py',
+     """        except ParameterError as e:
+            # Each data type validates its own attributes, and will raise a
+            # ParameterError if the type or value is bad.
+            raise InvalidSpec('Bad argument to %s type: %s' %
+                (quote(data_type_class.__name__), e.args[0]),
+                *loc)""",
+     """        except ParameterError as e:
+            # Each data type validates its own attributes, and will raise a
+            # ParameterError if the type or value is bad.
+            if 'pattern' in str(e.args[0]):
+                raise
+            raise InvalidSpec('Bad argument to %s type: %s' %
+                (quote(data_type_class.__name__), e.args[0]),
+                *loc)"""),
+    ('c03-got-errors-ignored', 'C03', 'stone/frontend/frontend.py',
+     """        if parser.got_errors_parsing():""",
+     """        if parser.got_errors_parsing() and len(parser.get_errors()) < 3:"""),
+    ('c03-indent-error-raises', 'C03', 'stone/frontend/lexer.py',
+     """            self.errors.append(
+                ('Indent is not divisible by 4.', newline_token.lexer.lineno))
+            return None""",
+     """            if indent > 20:
+                raise ValueError('Indent is not divisible by 4.')
+            self.errors.append(
+                ('Indent is not divisible by 4.', newline_token.lexer.lineno))
+            return None"""),
+    ('c03-two-arg-route', 'C03', 'stone/frontend/ir_generator.py',
+     """        if route._ast_node.error_type_ref is None:
+            # The error type may be left out of a route's signature.
+            error_dt = Void()
+        else:
+            error_dt = self._resolve_type(env, route._ast_node.error_type_ref)""",
+     """        error_dt = self._resolve_type(env, route._ast_node.error_type_ref)"""),
+    ('c03-invalidspec-foreign-path', 'C03', 'stone/frontend/frontend.py',
+     """            msg, lineno, path = parser.get_errors()[0]
+            raise InvalidSpec(msg, lineno, path)""",
+     """            msg, lineno, path = parser.get_errors()[0]
+            raise InvalidSpec(msg, lineno, path if lineno != 3 else '<spec>')"""),
 ]
